@@ -4,7 +4,7 @@ from __future__ import annotations
 import ast
 from typing import Dict, List, Optional, Set, Tuple
 
-from ..collect import Path, callee_is, run_paths
+from ..collect import default_inline, Path, callee_is, run_paths
 from ..common import construct, where
 from ..flow import NONE, Value, contains, show, subterms
 from ..loader import AnalysisError, ClassInfo, FuncInfo, Program, walk_shallow
@@ -56,6 +56,8 @@ def run(p: Program, rep: Report, tier: str) -> None:
     expect_methods = ["__setitem__", "__delitem__", "setlist", "poplist", "append"]
     setitem_pair_paths: List[Path] = []
     for name, m in sorted(mmm.methods.items()):
+        if default_inline(m):
+            continue  # a private helper is analysed as part of the public mutators that call it
         rep.analysed(m.fq)
         raises = (lambda c, i, callee, node: ["KeyError"] if callee[0] in ("delitem",) else [])
         paths, col, it = run_paths(p, m, mmm, raises=raises)
@@ -144,7 +146,7 @@ def run(p: Program, rep: Report, tier: str) -> None:
     # deletions by position inside a loop over positions must run from the back
     from ..common import stale_index_deletes
     for name, m in sorted(mmm.methods.items()):
-        for node, desc, okk in stale_index_deletes(m):
+        for node, desc, okk in stale_index_deletes(m, p):
             if okk:
                 rep.ok("R17.1", f"{name}: {desc}")
             else:
